@@ -8,10 +8,12 @@
 //!   `raw k=v k=v ...`                      same font as `gen`, then the `tfm::File` is laid out
 //!                                          non-canonically (shuffled/duplicated tables, shuffled kerns)
 //!                                          before it is serialised with the real serialiser
+//!   `redir <n> <rb|-1>`                    t0 = a font whose first n characters each have their own redirect word
 //!   `hex <bytes in hex>`                   t0 = literal bytes
 //!   `pack <rb> <lb> <n> (<next> <right>)*n <m> (<char> <entry>)*m`
 //!                                          `Program::pack_entrypoints` alone on a synthetic program
 //!   `kerns <n> (<kind> <value>)*n`         `unpack_kerns` / `pack_kerns` alone
+//!   `dims <max> <n> <value>*n`             `tfm::compress` on its lossless path (dimension tables)
 //!
 //! For every t0 inside the quantifier (tftopl and pltotf of the first trip raise no warning):
 //!   t1 = pl_to_tfm(tfm_to_pl(t0)), t2 = pl_to_tfm(tfm_to_pl(t1))
@@ -141,6 +143,7 @@ struct Shape {
     nl: u32,   // NEXTLARGER links
     nv: u32,   // VARCHAR recipes
     np: u32,   // params
+    odd: u32,  // oddities: 1 trailing LABEL without a step, 2 SKIP past the end of the table, 4 LABEL of a character that has no CHARACTER entry, 8 labelled character that also has NEXTLARGER, 16 a CHARACTER entry given twice
     hdr: u32,  // header flavour bits: 1 scheme, 2 family, 4 face, 8 sevenbit flag, 16 extra words, 32 explicit checksum, 64 math sy scheme, 128 math ex
     xc: Vec<u32>, // indices of characters removed after generation (shrinking)
     xl: Vec<u32>, // indices of LIGTABLE items removed after generation (shrinking)
@@ -167,6 +170,7 @@ impl Shape {
             ("nv", self.nv as u64),
             ("np", self.np as u64),
             ("hdr", self.hdr as u64),
+            ("odd", self.odd as u64),
         ]
     }
     fn show(&self, cmd: &str) -> String {
@@ -211,6 +215,7 @@ impl Shape {
             nv: g("nv") as u32,
             np: g("np") as u32,
             hdr: g("hdr") as u32,
+            odd: g("odd") as u32,
             xc: l("xc"),
             xl: l("xl"),
         }
@@ -254,6 +259,7 @@ impl Shape {
             nv: *r.pick(&[0u32, 0, 1, 2, 5]),
             np: *r.pick(&[0u32, 0, 1, 7, 8, 13, 22, 30]),
             hdr: r.below(256) as u32,
+            odd: if r.chance(1, 5) { 1 << r.below(5) } else { 0 },
             xc: vec![],
             xl: vec![],
         }
@@ -452,6 +458,24 @@ fn gen_font(sh: &Shape) -> GFont {
             f.lig.push(LItem::Stop);
         }
     }
+    if sh.odd & 1 != 0 {
+        if let Some(c) = codes.iter().find(|c| !tagged.contains(c)) {
+            f.lig.push(LItem::Label(*c));
+            tagged.insert(*c);
+        }
+    }
+    if sh.odd & 2 != 0 && !f.lig.is_empty() {
+        // replace the final STOP by a SKIP that leaves the table
+        if matches!(f.lig.last(), Some(LItem::Stop)) {
+            f.lig.pop();
+            f.lig.push(LItem::Skip(1 + (sh.seed % 3) as u8));
+        }
+    }
+    if sh.odd & 4 != 0 && !f.lig.is_empty() {
+        if let Some(c) = (0..=255u8).find(|c| !codes.contains(c)) {
+            f.lig.insert(0, LItem::Label(c));
+        }
+    }
     // --- NEXTLARGER chains (ascending codes: no cycles) and VARCHAR recipes
     let untagged: Vec<usize> = (0..f.chars.len()).filter(|i| !tagged.contains(&f.chars[*i].code)).collect();
     let mut ut = untagged.clone();
@@ -488,6 +512,18 @@ fn gen_font(sh: &Shape) -> GFont {
         let (t, m, b) = (piece(&mut r), piece(&mut r), piece(&mut r));
         f.chars[i].tag = GTag::Var(t, m, b, *r.pick(&codes));
     }
+    if sh.odd & 8 != 0 && f.chars.len() >= 2 {
+        if let Some(i) = (0..f.chars.len() - 1).find(|i| tagged.contains(&f.chars[*i].code)) {
+            f.chars[i].tag = GTag::Next(f.chars[i + 1].code);
+        }
+    }
+    if sh.odd & 16 != 0 && !f.chars.is_empty() {
+        let mut c = f.chars[0].clone();
+        c.wd = c.wd.wrapping_add(12345) % (8 << 20);
+        c.ht = 54321;
+        c.tag = GTag::None;
+        f.chars.push(c);
+    }
     // --- header
     let h = sh.hdr;
     if h & 2 != 0 {
@@ -502,9 +538,11 @@ fn gen_font(sh: &Shape) -> GFont {
             f.head.push(format!("(HEADER D {} O {:o})", 18 + i, r.next_u64() as u32));
         }
     }
-    if h & 64 != 0 {
+    let math_sy = h & 64 != 0 && h & 3 == 3;
+    let math_ex = h & 128 != 0 && h & 3 == 2;
+    if math_sy {
         f.head.push("(CODINGSCHEME TEX MATH SYMBOLS)".into());
-    } else if h & 128 != 0 {
+    } else if math_ex {
         f.head.push("(CODINGSCHEME TEX MATH EXTENSION)".into());
     } else if h & 1 != 0 {
         f.head.push(format!(
@@ -516,12 +554,12 @@ fn gen_font(sh: &Shape) -> GFont {
     if h & 32 != 0 {
         f.head.push(format!("(CHECKSUM O {:o})", r.next_u64() as u32));
     }
-    if h & 8 != 0 {
+    if h & 8 != 0 && h & 4 != 0 {
         f.head.push("(SEVENBITSAFEFLAG TRUE)".into());
     }
-    let np = if h & 64 != 0 && r.chance(3, 4) {
+    let np = if math_sy && r.chance(9, 10) {
         22
-    } else if h & 128 != 0 && h & 64 == 0 && r.chance(3, 4) {
+    } else if math_ex && r.chance(9, 10) {
         13
     } else {
         sh.np
@@ -773,6 +811,8 @@ fn run_pair(p: &tfm::ligkern::CompiledProgram, l: Option<Char>, r: Option<Char>)
 // ------------------------------------------------------------------------------------------
 
 struct C11 {
+    /// Suffix for failure signatures of the current case (identifies a known defect class).
+    sig_suffix: String,
     corpus_tfm: Vec<String>,
     corpus_pl: Vec<String>,
     repo: String,
@@ -877,7 +917,9 @@ impl C11 {
             Ok(Ok(x)) => x,
         };
         if !m0.is_empty() {
-            out.tag("t0:tftopl-warns (outside quantifier)");
+            let first = m0[0].lines().find(|l| !l.trim().is_empty()).unwrap_or("").to_string();
+            let sig: String = first.chars().filter(|c| !c.is_ascii_digit() && *c != '\'').take(60).collect();
+            out.tag(format!("t0:tftopl-warns (outside quantifier): {}", sig.trim()));
             return;
         }
         let (t1, w1) = match caught(|| real_pltotf(&pl0)) {
@@ -888,18 +930,30 @@ impl C11 {
             Ok(x) => x,
         };
         if !w1.is_empty() {
-            // pltotf does not accept tftopl's own warning-free output silently
-            out.tag("t0:pltotf-warns-on-tftopl-output");
-            out.fail(
-                Kind::ImplVsSpec,
-                "trip1",
-                format!("pltotf warns on warning-free tftopl output: {}", w1[0]),
-                format!("warnings: {w1:?}"),
-            );
+            // "converts without warnings" covers both halves of the first conversion: a file
+            // whose tftopl output pltotf does not read back silently (more than 254 parameters,
+            // a seven-bit-safe flag that is set on a font that is not) is outside the quantifier.
+            out.tag(format!("t0:pltotf-warns-on-tftopl-output ({}) (outside quantifier)", w1[0]));
             return;
         }
         out.tag("t0:in-quantifier");
         out.nontrivial = true;
+        // Known defect class C11-b: a LABEL that no step follows (entry point = number of
+        // instructions). Failures of such a case carry a suffix so that the known finding
+        // cannot hide a different defect.
+        self.sig_suffix = String::new();
+        if let Ok((plf, _)) = caught(|| tfm::pl::File::from_pl_source_code(&pl0)) {
+            let n = plf.lig_kern_program.instructions.len();
+            let dangling = plf.lig_kern_entrypoints(true).values().any(|e| *e as usize >= n)
+                || plf.lig_kern_program.left_boundary_char_entrypoint.map(|e| e as usize >= n).unwrap_or(false);
+            if dangling {
+                out.tag("t0:label-without-steps");
+                self.sig_suffix = " [label without steps]".into();
+            }
+        }
+        dump("t0.tfm", t0);
+        dump("pl0.pl", pl0.as_bytes());
+        dump("t1.tfm", &t1);
 
         // ---- second trip: must be the identity, silently
         let second = caught(|| {
@@ -916,6 +970,8 @@ impl C11 {
             Err(p) => out.fail(Kind::ImplPanic, "trip2", format!("panic {}", strip_msg(&p)), format!("second trip panicked: {p}")),
             Ok(Err(e)) => out.fail(Kind::ImplVsSpec, "trip2", "t1 unreadable", format!("tfm_to_pl(t1) failed: {e}")),
             Ok(Ok((pl1, m1, t2, w2))) => {
+                dump("pl1.pl", pl1.as_bytes());
+                dump("t2.tfm", &t2);
                 if !m1.is_empty() {
                     let first = m1[0].lines().find(|l| !l.trim().is_empty()).unwrap_or("").to_string();
                     let sig: String = first.chars().filter(|c| !c.is_ascii_digit() && *c != '\'').collect();
@@ -931,7 +987,7 @@ impl C11 {
                     out.fail(
                         Kind::ImplVsSpec,
                         "idempotent",
-                        format!("t1 != t2 in {sec}"),
+                        format!("t1 != t2 in {sec}{}", self.sig_suffix),
                         format!("{d}\nt1 = {}\nt2 = {}", hex(&t1), hex(&t2)),
                     );
                 } else {
@@ -1014,22 +1070,49 @@ impl C11 {
         }
         let (h0, h1) = (&d0.file.header, &d1.file.header);
         if h0 != h1 {
-            let which = if h0.checksum != h1.checksum {
-                "checksum"
-            } else if h0.design_size != h1.design_size {
-                "design_size"
-            } else if h0.character_coding_scheme != h1.character_coding_scheme {
-                "coding_scheme"
-            } else if h0.font_family != h1.font_family {
-                "family"
-            } else if h0.seven_bit_safe != h1.seven_bit_safe {
-                "seven_bit_safe"
-            } else if h0.face != h1.face {
-                "face"
-            } else {
-                "additional_data"
-            };
-            out.fail(Kind::ImplVsSpec, "same-font", format!("header differs: {which}"), format!("t0 {h0:?}\nt1 {h1:?}"));
+            let mut sigs: Vec<&'static str> = vec![];
+            if h0.checksum != h1.checksum {
+                sigs.push("header differs: checksum");
+            }
+            if h0.design_size != h1.design_size {
+                sigs.push("header differs: design_size");
+            }
+            for (a, b, name) in [
+                (&h0.character_coding_scheme, &h1.character_coding_scheme, "header differs: coding_scheme"),
+                (&h0.font_family, &h1.font_family, "header differs: family"),
+            ] {
+                if a != b {
+                    sigs.push(match (a, b) {
+                        (None, Some(d)) if d == "UNSPECIFIED" => "header normalised: short header padded with PL defaults",
+                        (Some(x), Some(y)) if x.eq_ignore_ascii_case(y) => "header normalised: lower-case letters in strings upper-cased",
+                        _ => name,
+                    });
+                }
+            }
+            if h0.seven_bit_safe != h1.seven_bit_safe {
+                sigs.push(match (h0.seven_bit_safe, h1.seven_bit_safe) {
+                    (None, Some(_)) => "header normalised: short header padded with PL defaults",
+                    (Some(false), Some(true)) => "header normalised: seven-bit-safe flag recomputed (clear -> set)",
+                    _ => "header differs: seven_bit_safe",
+                });
+            }
+            if h0.face != h1.face {
+                sigs.push(match (h0.face, h1.face) {
+                    (None, Some(f)) if u8::from(f) == 0 => "header normalised: short header padded with PL defaults",
+                    _ => "header differs: face",
+                });
+            }
+            if h0.additional_data != h1.additional_data {
+                sigs.push("header differs: additional_data");
+            }
+            sigs.dedup();
+            let mut seen: Vec<&str> = vec![];
+            for sg in sigs {
+                if !seen.contains(&sg) {
+                    seen.push(sg);
+                    out.fail(Kind::ImplVsSpec, "same-font", sg, format!("t0 {h0:?}\nt1 {h1:?}"));
+                }
+            }
         }
         if d0.file.lig_kern_program.right_boundary_char != d1.file.lig_kern_program.right_boundary_char {
             out.fail(
@@ -1055,7 +1138,7 @@ impl C11 {
         }
     }
 
-    fn compare_ligkern(&self, d0: &Decoded, d1: &Decoded, drv: &mut Driver, out: &mut CaseOutcome) {
+    fn compare_ligkern(&mut self, d0: &Decoded, d1: &Decoded, drv: &mut Driver, out: &mut CaseOutcome) {
         let mut f0 = d0.file.clone();
         let mut f1 = d1.file.clone();
         let r = caught(|| {
@@ -1124,7 +1207,7 @@ impl C11 {
             bad = Some(format!("pairs with replacements differ: only in t0 {only0:?}, only in t1 {only1:?}"));
         }
         if let Some(b) = bad {
-            out.fail(Kind::ImplVsSpec, "ligkern", "compiled lig/kern behaviour differs", b);
+            out.fail(Kind::ImplVsSpec, "ligkern", format!("compiled lig/kern behaviour differs{}", self.sig_suffix), b);
         }
         if !pairs.is_empty() {
             out.tag("ligkern:pairs-compared");
@@ -1134,7 +1217,7 @@ impl C11 {
         let (v1, _) = program_view(d1);
         let reply = drv.ask(&format!("sem {} {}", join(&v0), join(&v1)));
         if reply != "same" {
-            out.fail(Kind::ImplVsSpec, "ligkern-rule", "C05.rule differs between t0 and t1", reply);
+            out.fail(Kind::ImplVsSpec, "ligkern-rule", format!("C05.rule differs between t0 and t1{}", self.sig_suffix), reply);
         }
     }
 
@@ -1158,14 +1241,13 @@ impl C11 {
         match real {
             Err(pn) => {
                 out.tag("pack:panic");
-                if m != "panic" {
-                    out.fail(Kind::ImplVsModel, "pack", "real pack_entrypoints panics, model does not", format!("{pn}\nmodel: {}", trunc_s(&m, 300)));
-                }
+                // The model describes pack_entrypoints with fix C11-a applied (it never panics
+                // on at most 256 labelled characters): the panic itself is the defect.
                 out.fail(
                     Kind::ImplPanic,
                     "pack",
                     format!("panic {}", strip_msg(&pn)),
-                    format!("pack_entrypoints panicked: {pn}\ninput: {}", trunc_s(&join(&input), 2000)),
+                    format!("pack_entrypoints panicked: {pn}\nmodel: {}\ninput: {}", trunc_s(&m, 200), trunc_s(&join(&input), 2000)),
                 );
             }
             Ok((p, ne)) => {
@@ -1212,9 +1294,17 @@ fn bucket(n: usize, lim: usize) -> String {
     }
 }
 
+/// Debugging aid: with C11_DUMP=<dir> the intermediate files of a replayed case are written there.
+fn dump(name: &str, data: &[u8]) {
+    if let Ok(d) = std::env::var("C11_DUMP") {
+        let _ = std::fs::write(format!("{d}/{name}"), data);
+    }
+}
+
 fn shape_t0(sh: &Shape, raw: bool) -> Result<Vec<u8>, String> {
     let f = gen_font(sh);
     let pl = font_to_pl(&f);
+    dump("src.pl", pl.as_bytes());
     if raw {
         let (plf, w) = tfm::pl::File::from_pl_source_code(&pl);
         if !w.is_empty() {
@@ -1259,6 +1349,10 @@ impl Property for C11 {
         v.push(Shape { seed: 2, nc: 256, nw: 3, chains: 256, len: 2, labels: 1, pad: 300, bc: 1, lb: 1, ..Shape::parse("") }.show("gen"));
         v.push(Shape { seed: 3, nc: 3, nw: 2, chains: 2, len: 2, labels: 2, pad: 255, bc: 2, lb: 1, ..Shape::parse("") }.show("gen"));
         v.push(Shape { seed: 4, nc: 3, nw: 2, chains: 2, len: 2, labels: 2, pad: 254, bc: 1, lb: 0, ..Shape::parse("") }.show("gen"));
+        for n in [0, 1, 2, 200, 254, 255, 256] {
+            v.push(format!("redir {n} -1"));
+            v.push(format!("redir {n} 65"));
+        }
         v.push("pack -1 -1 0 0".into());
         v.push("pack 65 -1 0 0".into());
         v.push("pack -1 0 0 0".into());
@@ -1341,6 +1435,22 @@ impl Property for C11 {
         }
         let mut r = rng.fork();
         for _ in 0..n_kerns {
+            let max = *r.pick(&[15i64, 15, 63, 255, 3]);
+            let n = match r.below(4) {
+                0 => r.below(4) as i64,
+                1 => max + r.range(-2, 3),
+                _ => r.below(max as u64 + 10) as i64,
+            }
+            .max(0);
+            let small = r.chance(1, 2);
+            let mut w = vec![max, n];
+            for _ in 0..n {
+                w.push(if small { r.range(-20, 20) } else { interesting_i32(&mut r) as i64 >> 4 });
+            }
+            v.push(format!("dims {}", join(&w)));
+        }
+        let mut r = rng.fork();
+        for _ in 0..n_kerns {
             let n = r.below(40) as usize;
             let pool: Vec<i64> = (0..1 + r.below(6)).map(|_| interesting_i32(&mut r) as i64).collect();
             let mut w = vec![n as i64];
@@ -1393,21 +1503,69 @@ impl Property for C11 {
                 let sh = Shape::parse(rest);
                 match caught(|| shape_t0(&sh, cmd == "raw")) {
                     Err(p) => {
-                        out.tag("gen:pltotf-panics");
-                        out.fail(
-                            Kind::ImplPanic,
-                            "gen",
-                            format!("panic {}", strip_msg(&p)),
-                            format!("pl_to_tfm panicked on a generated property list: {p}"),
-                        );
+                        // No t0: outside C11's quantifier. (Totality of the PL reader is C10's
+                        // subject; a panic inside pack_entrypoints is reported by the `pack`
+                        // and `redir` streams.)
+                        out.tag(format!("gen:pltotf-panics at {} (no t0)", strip_msg(&p)));
                     }
-                    Ok(Err(w)) => out.tag(format!("gen:discarded ({w})")),
+                    Ok(Err(w)) => out.tag(format!("gen:discarded ({})", w.split('(').next().unwrap_or(""))),
                     Ok(Ok(t0)) => {
                         if sh.pad + sh.chains * sh.len > 255 {
                             out.tag("gen:may-exceed-255-instr");
                         }
                         self.round_trip(&t0, drv, &mut out);
                     }
+                }
+            }
+            "redir" => {
+                // A .tfm in which each of the first n characters has its own redirect word:
+                // words 0..n-1 redirect to n..2n-1, one kern step each. Built with the real
+                // `tfm::File` and serialiser. `redir <n> <rb|-1>`.
+                out.tag("src:redir");
+                let w = parse_i64s(rest);
+                let (n, rb) = (w[0].clamp(0, 256) as usize, w[1]);
+                let mut pl = String::new();
+                for c in 0..n.max(1) {
+                    pl.push_str(&format!("(CHARACTER O {:o} (CHARWD R 1.0))\n", c));
+                }
+                let t0 = caught(|| {
+                    let (plf, _) = tfm::pl::File::from_pl_source_code(&pl);
+                    let mut file: tfm::File = plf.into();
+                    let rbc = if rb < 0 { None } else { Some(Char(rb as u8)) };
+                    // n redirect words, a left-boundary chain of L steps (so that every character's
+                    // entry point needs a redirect again after the round trip), one step per
+                    // character, the left-boundary word.
+                    let l = if n == 0 { 0 } else { 257usize.saturating_sub(n).max(1) };
+                    let mut ins = vec![];
+                    for c in 0..n {
+                        ins.push(Instruction { next_instruction: None, right_char: rbc.unwrap_or(Char(0)), operation: Operation::EntrypointRedirect((n + l + c) as u16, true) });
+                    }
+                    for k in 0..l {
+                        ins.push(Instruction { next_instruction: if k + 1 < l { Some(0) } else { None }, right_char: Char((k % n.max(1)) as u8), operation: Operation::KernAtIndex(0) });
+                    }
+                    for c in 0..n {
+                        ins.push(Instruction { next_instruction: None, right_char: Char(((c + 1) % n.max(1)) as u8), operation: Operation::KernAtIndex(0) });
+                    }
+                    if n == 0 && rbc.is_some() {
+                        ins.push(Instruction { next_instruction: None, right_char: rbc.unwrap(), operation: Operation::EntrypointRedirect(0, true) });
+                    }
+                    let lbe = if n > 0 {
+                        ins.push(Instruction { next_instruction: None, right_char: Char(0), operation: Operation::EntrypointRedirect(n as u16, false) });
+                        Some(n as u16)
+                    } else {
+                        None
+                    };
+                    file.lig_kern_program = Program { instructions: ins, left_boundary_char_entrypoint: lbe, right_boundary_char: rbc, passthrough: Default::default() };
+                    file.kerns = vec![FixWord(1 << 18)];
+                    for c in 0..n {
+                        file.char_tags.insert(Char(c as u8), tfm::CharTag::Ligature(c as u8));
+                    }
+                    file.header.checksum = Some(7);
+                    file.serialize()
+                });
+                match t0 {
+                    Err(p) => panic!("cannot build the redir font: {p}"),
+                    Ok(t0) => self.round_trip(&t0, drv, &mut out),
                 }
             }
             "pack" => {
@@ -1436,6 +1594,37 @@ impl Property for C11 {
                 };
                 out.nontrivial = m > 0;
                 self.pack_streams(&prog, &entries, drv, &mut out);
+            }
+            "dims" => {
+                out.tag("src:dims");
+                let w = parse_i64s(rest);
+                let max = w[0] as u8;
+                let vals: Vec<FixWord> = w[2..].iter().map(|x| FixWord(*x as i32)).collect();
+                out.nontrivial = !vals.is_empty();
+                let m = drv.ask(case);
+                match caught(|| tfm::compress(&vals, max)) {
+                    Err(pn) => out.fail(Kind::ImplPanic, "dims", format!("panic {}", strip_msg(&pn)), pn),
+                    Ok((table, map)) => {
+                        let idx: Vec<i64> = vals.iter().map(|v| map.get(v).map(|n| n.get() as i64).unwrap_or(0)).collect();
+                        if m == "lossy" {
+                            out.tag("dims:lossy (C17)");
+                        } else {
+                            out.tag("dims:lossless");
+                            let i = format!("{} | {}", join(&table.iter().map(|x| x.0 as i64).collect::<Vec<_>>()), join(&idx));
+                            if i.trim() != m.trim() {
+                                out.fail(Kind::ImplVsModel, "dims", "compress (early exit) differs from model", format!("impl:  {i}\nmodel: {m}"));
+                            }
+                            // S on the real output: every value is found again under its index,
+                            // entry 0 is zero, the rest strictly ascending
+                            let ok = vals.iter().zip(&idx).all(|(v, i)| table.get(*i as usize) == Some(v))
+                                && table.first() == Some(&FixWord::ZERO)
+                                && table[1..].windows(2).all(|p| p[0] < p[1]);
+                            if !ok {
+                                out.fail(Kind::ImplVsSpec, "dims", "dimension table does not preserve a value", format!("values {:?}\ntable {:?}\nindices {:?}", &w[2..], table, idx));
+                            }
+                        }
+                    }
+                }
             }
             "kerns" => {
                 out.tag("src:kerns");
@@ -1513,6 +1702,7 @@ impl Property for C11 {
                 field!(nv);
                 field!(np);
                 field!(hdr);
+                field!(odd);
                 field!(nh);
                 field!(nd);
                 field!(ni);
@@ -1593,6 +1783,29 @@ impl Property for C11 {
                     c.push(mk(w[0], w[1], &i2, &ent));
                 }
             }
+            "redir" => {
+                let w = parse_i64s(rest);
+                if w[0] > 0 {
+                    c.push(format!("redir {} {}", w[0] - 1, w[1]));
+                    c.push(format!("redir {} {}", w[0] / 2, w[1]));
+                }
+                if w[1] >= 0 {
+                    c.push(format!("redir {} -1", w[0]));
+                }
+            }
+            "dims" => {
+                let w = parse_i64s(rest);
+                let n = w[1] as usize;
+                for k in 0..n {
+                    let mut o = vec![w[0], (n - 1) as i64];
+                    for i in 0..n {
+                        if i != k {
+                            o.push(w[2 + i]);
+                        }
+                    }
+                    c.push(format!("dims {}", join(&o)));
+                }
+            }
             "kerns" => {
                 let w = parse_i64s(rest);
                 let n = w[0] as usize;
@@ -1626,5 +1839,5 @@ fn main() {
         repo
     };
     let (corpus_tfm, corpus_pl) = list_corpus(&repo);
-    run(C11 { corpus_tfm, corpus_pl, repo });
+    run(C11 { sig_suffix: String::new(), corpus_tfm, corpus_pl, repo });
 }
